@@ -124,7 +124,13 @@ def rf_configs(draw, spf_cap=4096, boundary_p=0.6, force=None):
         start = (t * n) // d + draw(st.integers(0, max(0, spf - 1)))
     cfg["start"] = max(0, start)
     if force_big:
-        # move forward by whole years (whole seconds: boundary alignment is kept) until the index exceeds 2^53
+        # the era is drawn explicitly (Hypothesis favours small integers, i.e. the early 1980s, where a double still has
+        # sub-sample resolution at these rates): shift by whole seconds (boundary alignment is kept)
+        era = draw(st.sampled_from([1995, 2010, 2024, 2026, 2040, 2070, 2095]))
+        cur = cfg["start"] * d // n
+        target = (era - 1970) * 31557600 + cur % 31557600
+        cfg["start"] += (target - cur) * n // d
+        # ... and forward by whole years until the index exceeds 2^53
         while cfg["start"] <= 1 << 53:
             cfg["start"] += (365 * 86400 * n) // d
     if force_big and float(cfg["start"]) == cfg["start"]:
